@@ -1841,6 +1841,15 @@ def _reduce(eng, args, kwargs, node):
         if m is not None:
             return m
         return builtin_reduce_model(eng, f, c, args[2], node)
+    if isinstance(c, SSeq) and not has_init:
+        # no initial value: TypeError on an empty sequence, otherwise the fold of the tail starting from the head
+        if eng.branch(V.L(c) == 0):
+            raise RaiseExc("TypeError", (), node, implicit=True)
+        nm = f.dotted.split(".")[-1] if isinstance(f, ExtRef) else None
+        if c.elem == "int" and (nm == "add" or _is_add_lambda(f)):
+            r = SInt(V.uf("sum_int", V.seq_sort("int"), z3.IntSort())(c.t))
+            eng.event("pure", "reduce-sum", None, [c, None], {}, node, r)
+            return r
     items = eng.static_items(xs)
     if not has_init:
         if not items:
@@ -1908,7 +1917,27 @@ def builtin_reduce_model(eng, f, c, init, node):
     lam = _or_lambda(f)
     if lam is not None:
         return exists_model(eng, lam, c, init, node)
+    if c.elem == "int" and (name == "add" or _is_add_lambda(f)):
+        # reduce(lambda x, y: x + y, ints, init) == init + sum(ints): `sum_int` is the same uninterpreted fold the
+        # model of the built-in sum() uses (assumed contract of functools.reduce, DESIGN 6.3)
+        r = init + SInt(V.uf("sum_int", V.seq_sort("int"), z3.IntSort())(c.t))
+        eng.event("pure", "reduce-sum", None, [c, init], {}, node, r)
+        return r
     raise EngineError("reduce over a symbolic sequence with an unmodelled function")
+
+
+def _is_add_lambda(f):
+    """`lambda x, y: x + y`"""
+    from .engine import LambdaV
+
+    if not isinstance(f, LambdaV):
+        return False
+    a = f.node.args
+    if len(a.args) != 2 or a.vararg or a.kwarg or a.kwonlyargs:
+        return False
+    x, y = a.args[0].arg, a.args[1].arg
+    b = f.node.body
+    return isinstance(b, ast.BinOp) and isinstance(b.op, ast.Add) and isinstance(b.left, ast.Name) and isinstance(b.right, ast.Name) and {b.left.id, b.right.id} == {x, y} and x != y
 
 
 def _or_lambda(f):
